@@ -222,6 +222,7 @@ type Outcome struct {
 	Len *int     `json:"len,omitempty"`
 	G   string   `json:"g,omitempty"`
 	Big bool     `json:"big,omitempty"`
+	Val *Value   `json:"val,omitempty"` // "goleaf": the abstract value delivered in representation G
 }
 
 type OutEntry struct {
